@@ -113,8 +113,13 @@ Print Assumptions C06_pushfrontlist.
 
 (* A panic in a covered history, located: if the i-th call panics then, in the very state the
    first i calls have produced (abstract state a1, handle table h1, heap s1 representing a1),
-   that call has a nil element argument, the panic is a nil dereference, and the call changes
-   nothing: not the abstract state, not the heap, not the handle table. *)
+   that call has a nil element argument, the panic is a nil dereference, and the abstract state
+   and the handle table are unchanged. The last conjunct (the model's heap is unchanged too)
+   holds by construction of the model's [step]: for a panicking call other than the two
+   copying loops, [panic_state] IS the pre-state. That a recovered panic of the real code has
+   written nothing is therefore not a consequence of this theorem but of the harness, which
+   compares the whole observable state after every recovered panic with the model and with
+   container/list. *)
 Theorem C06_list_panics : forall ops os a h i op k,
   spec_run ops = (os, a, h, true) ->
   nth_error ops i = Some op -> nth_error (fst (run ops)) i = Some (OPanic k) ->
